@@ -22,6 +22,19 @@
 //!        (`+<tid>:<point>` appended to the step that released).  At most one thread is stuck at a
 //!        time.  After the schedule the harness drains: lowest-numbered runnable thread first.
 //! output: `<tid>:<pause point reached | done | blocked | stuck | waiting | noop>[+<tid>:<point>],.. | <drain steps> | last=<d|none> n=<len> s<sid>=[d.d.d] ..`
+//!
+//! Publish TRIGGERS (`E` payloads): a real `Endpoint` with a logging lookup service, driven through
+//! the public API.
+//! payload: `E <ip|relay|dead> <ops|->`
+//!   ip     one IP transport bound to 127.0.0.1, relay disabled
+//!   relay  no IP transport, home relay = an in-process relay server
+//!   dead   no IP transport, the only relay in the map is unreachable: the endpoint starts with
+//!          nothing to publish
+//!   ops    `+x<k>` add_external_addr(198.51.100.<k+1>:4433)  `-x<k>` remove_external_addr
+//!          `u<k>` set_user_data_for_address_lookup(Some("u<k>"))  `u-` .. (None)
+//! model input: the payload plus `L=<0|1>`: whether the endpoint has direct addresses of its own
+//! output: per op (and first for the start) what the service was LAST given once things settled:
+//!   `ips=<L?.x<k>..> relay=<0|1> ud=<k|->` or `none`, joined by `;`
 use std::sync::mpsc::{Receiver, Sender, channel};
 use std::sync::{Arc, Mutex};
 use std::time::Duration;
@@ -197,6 +210,237 @@ fn lock_of(point: &str) -> Option<Lock> {
         Some(Lock::ServicesWrite)
     } else {
         None
+    }
+}
+
+/// The endpoint data a lookup service holds / the endpoint currently has, canonical.
+#[derive(Clone, Debug, PartialEq, Eq)]
+struct View {
+    local: bool,
+    ext: Vec<u64>,
+    relay: bool,
+    ud: Option<String>,
+}
+
+impl View {
+    fn tok(&self) -> String {
+        let mut ips: Vec<String> = Vec::new();
+        if self.local {
+            ips.push("L".into());
+        }
+        ips.extend(self.ext.iter().map(|k| format!("x{k}")));
+        format!("ips={} relay={} ud={}", if ips.is_empty() { "-".into() } else { ips.join(".") }, self.relay as u8, self.ud.clone().unwrap_or("-".into()))
+    }
+    fn is_empty(&self) -> bool {
+        !self.local && self.ext.is_empty() && !self.relay && self.ud.is_none()
+    }
+}
+
+fn ext_addr(k: u64) -> std::net::SocketAddr {
+    std::net::SocketAddr::from((std::net::Ipv4Addr::new(198, 51, 100, (k % 250) as u8 + 1), 4433))
+}
+
+fn view_of(ips: impl Iterator<Item = std::net::SocketAddr>, relay: bool, ud: Option<String>) -> View {
+    let mut local = false;
+    let mut ext = Vec::new();
+    for a in ips {
+        match a {
+            std::net::SocketAddr::V4(v4) if v4.ip().octets()[..3] == [198, 51, 100] && v4.port() == 4433 => {
+                ext.push(v4.ip().octets()[3] as u64 - 1)
+            }
+            _ => local = true,
+        }
+    }
+    ext.sort();
+    View { local, ext, relay, ud }
+}
+
+#[derive(Debug, Default, Clone)]
+struct Recorder(Arc<Mutex<Vec<EndpointData>>>);
+
+impl AddressLookup for Recorder {
+    fn publish(&self, data: &EndpointData) {
+        self.0.lock().unwrap().push(data.clone());
+    }
+}
+
+impl Recorder {
+    fn last(&self) -> Option<View> {
+        self.0.lock().unwrap().last().map(|d| {
+            view_of(d.ip_addrs().copied(), d.relay_urls().next().is_some(), d.user_data().map(|u| u.as_ref().to_string()))
+        })
+    }
+}
+
+#[derive(Clone, Debug, PartialEq, Eq)]
+enum EOp {
+    AddExt(u64),
+    RemExt(u64),
+    UserData(Option<u64>),
+}
+
+fn parse_eops(s: &str) -> Option<Vec<EOp>> {
+    if s == "-" {
+        return Some(vec![]);
+    }
+    s.split(',')
+        .map(|t| {
+            if let Some(k) = t.strip_prefix("+x") {
+                Some(EOp::AddExt(parse_nat(k)?))
+            } else if let Some(k) = t.strip_prefix("-x") {
+                Some(EOp::RemExt(parse_nat(k)?))
+            } else if t == "u-" {
+                Some(EOp::UserData(None))
+            } else if let Some(k) = t.strip_prefix('u') {
+                Some(EOp::UserData(Some(parse_nat(k)?)))
+            } else {
+                None
+            }
+        })
+        .collect()
+}
+
+/// The endpoint's own view of its data.
+fn current_view(ep: &iroh::Endpoint, ud: &Option<String>) -> View {
+    let a = ep.addr();
+    view_of(a.ip_addrs().copied(), a.relay_urls().next().is_some(), ud.clone())
+}
+
+/// Polls `cond` until it holds or `max` has passed.
+async fn until(mut cond: impl FnMut() -> bool, max: Duration) -> bool {
+    let t0 = std::time::Instant::now();
+    while t0.elapsed() < max {
+        if cond() {
+            return true;
+        }
+        tokio::time::sleep(STEP).await;
+    }
+    cond()
+}
+
+/// What the service holds once things settled: waits (bounded) for it to equal the endpoint's own
+/// view; evaluates the oracle on what it holds then.
+async fn observe(
+    rec: &Recorder,
+    ep: &iroh::Endpoint,
+    ud: &Option<String>,
+    prev: &Option<View>,
+    what: &str,
+    ex: &mut Exec,
+    outs: &mut Vec<String>,
+) -> Option<View> {
+    let empty_now = current_view(ep, ud).is_empty();
+    let _ = until(|| rec.last().as_ref() == Some(&current_view(ep, ud)), if empty_now { Duration::from_millis(150) } else { SETTLE }).await;
+    let want = current_view(ep, ud);
+    let last = rec.last();
+    outs.push(last.as_ref().map_or("none".into(), |v| v.tok()));
+    if want.is_empty() {
+        // nothing to publish: the code keeps quiet; the service keeps what it had
+        if last != *prev {
+            ex.violation(
+                "published-empty-data",
+                format!("after {what}: endpoint data is empty, service went from {:?} to {:?}", prev.as_ref().map(|v| v.tok()), last.as_ref().map(|v| v.tok())),
+            );
+        }
+    } else if last.as_ref() != Some(&want) {
+        ex.violation(
+            "service-stale-after-change",
+            format!("after {what}: endpoint has `{}`, service was last given `{}`", want.tok(), last.as_ref().map_or("nothing".into(), |v| v.tok())),
+        );
+    }
+    last
+}
+
+/// Bounded waits (real time).
+const STEP: Duration = Duration::from_millis(5);
+const SETTLE: Duration = Duration::from_millis(1500);
+
+impl C30 {
+    /// `E` payloads: publish triggers on a real endpoint.
+    fn run_endpoint(&self, cfg: &str, ops: &[EOp], payload: &str) -> Exec {
+        use iroh::endpoint::presets;
+        use iroh::{Endpoint, RelayMode};
+        let rt = match tokio::runtime::Builder::new_multi_thread().worker_threads(2).enable_all().build() {
+            Ok(rt) => rt,
+            Err(e) => return Exec { infra: Some(format!("runtime: {e}")), ..Default::default() },
+        };
+        let cfg = cfg.to_string();
+        let ops = ops.to_vec();
+        let payload = payload.to_string();
+        rt.block_on(async move {
+            let mut ex = Exec::default();
+            let rec = Recorder::default();
+            let mut builder = Endpoint::builder(presets::Minimal).address_lookup(rec.clone());
+            let mut relay_guard = None;
+            match cfg.as_str() {
+                "ip" => {
+                    builder = match builder.clear_ip_transports().bind_addr("127.0.0.1:0") {
+                        Ok(b) => b.relay_mode(RelayMode::Disabled),
+                        Err(e) => return Exec { infra: Some(format!("bind_addr: {e:?}")), ..Default::default() },
+                    };
+                }
+                "dead" => {
+                    // a relay nobody listens on: the endpoint never gets a home relay
+                    let url: RelayUrl = "https://127.0.0.1:9".parse().unwrap();
+                    builder = builder
+                        .clear_ip_transports()
+                        .relay_mode(RelayMode::Custom(iroh::RelayMap::from(url)))
+                        .ca_tls_config(iroh::tls::CaTlsConfig::insecure_skip_verify());
+                }
+                _ => match iroh::test_utils::run_relay_server().await {
+                    Ok((map, _url, guard)) => {
+                        relay_guard = Some(guard);
+                        builder = builder
+                            .clear_ip_transports()
+                            .relay_mode(RelayMode::Custom(map))
+                            .ca_tls_config(iroh::tls::CaTlsConfig::insecure_skip_verify());
+                    }
+                    Err(e) => return Exec { infra: Some(format!("relay server: {e:?}")), ..Default::default() },
+                },
+            }
+            let ep = match tokio::time::timeout(Duration::from_secs(20), builder.bind()).await {
+                Ok(Ok(ep)) => ep,
+                Ok(Err(e)) => return Exec { infra: Some(format!("bind: {e:?}")), ..Default::default() },
+                Err(_) => return Exec { infra: Some("bind timed out".into()), ..Default::default() },
+            };
+            if cfg == "relay" && tokio::time::timeout(Duration::from_secs(20), ep.online()).await.is_err() {
+                return Exec { infra: Some("endpoint never got online with the in-process relay".into()), ..Default::default() };
+            }
+            let mut ud: Option<String> = None;
+            let mut outs: Vec<String> = Vec::new();
+            let mut published_before: Option<View>;
+            published_before = observe(&rec, &ep, &ud, &None, "start", &mut ex, &mut outs).await;
+            let local = current_view(&ep, &ud).local;
+            for op in &ops {
+                let took = match op {
+                    EOp::AddExt(k) => {
+                        ep.add_external_addr(ext_addr(*k)).await;
+                        until(|| ep.addr().ip_addrs().any(|a| *a == ext_addr(*k)), SETTLE).await
+                    }
+                    EOp::RemExt(k) => {
+                        ep.remove_external_addr(&ext_addr(*k)).await;
+                        until(|| !ep.addr().ip_addrs().any(|a| *a == ext_addr(*k)), SETTLE).await
+                    }
+                    EOp::UserData(k) => {
+                        ud = k.map(|k| format!("u{k}"));
+                        ep.set_user_data_for_address_lookup(ud.clone().map(|s| UserData::try_from(s).unwrap()));
+                        true
+                    }
+                };
+                if !took {
+                    ep.close().await;
+                    return Exec { infra: Some(format!("{op:?} did not show in Endpoint::addr() within the bounded wait")), ..Default::default() };
+                }
+                published_before = observe(&rec, &ep, &ud, &published_before.clone(), &format!("{op:?}"), &mut ex, &mut outs).await;
+            }
+            ep.close().await;
+            drop(relay_guard);
+            ex.out = outs.join(";");
+            ex.model_input = Some(format!("{payload} L={}", local as u8));
+            ex.nontrivial = !ops.is_empty();
+            ex.tags.push(format!("E-{cfg}"));
+            ex
+        })
     }
 }
 
@@ -518,6 +762,55 @@ impl Prop for C30 {
             // ... with a further add arriving while the writer waits
             out.push(format!("f=n pre={} T=a{n_svc},p2ri,a9 S=0,!1,2,0,2", pre.join(",")));
         }
+        // publish triggers on a real endpoint
+        for p in [
+            "E ip -",
+            "E ip +x1,u5,-x1,u-",
+            "E dead -",
+            "E dead u3,+x2,-x2,u-,+x4,-x4",
+            "E relay +x1,-x1",
+            "E relay u7,+x3,u-,-x3",
+            "E relay +x1,+x2,-x1,-x2,u1",
+            "E dead u1,+x1,-x1",
+            "E ip u1,u1,u2,+x1,+x1,-x2",
+            "E relay r-",
+            "E none -",
+            "E ip +y1",
+        ] {
+            out.push(p.to_string());
+        }
+        let n_e = if tier == Tier::Thorough { 240 } else { 30 };
+        for i in 0..n_e {
+            let cfg = ["relay", "dead", "ip"][i % 3];
+            let mut ops: Vec<String> = Vec::new();
+            let mut present: Vec<u64> = Vec::new();
+            for _ in 0..rng.range(1, 6) {
+                match rng.below(5) {
+                    0 | 1 => {
+                        let k = rng.below(3);
+                        if !present.contains(&k) {
+                            present.push(k);
+                        }
+                        ops.push(format!("+x{k}"));
+                    }
+                    2 => {
+                        // mostly remove something present (so that the set can become empty)
+                        let k = if !present.is_empty() && rng.chance(4, 5) { present.remove(rng.usize_below(present.len())) } else { rng.below(3) };
+                        present.retain(|x| *x != k);
+                        ops.push(format!("-x{k}"));
+                    }
+                    3 => ops.push(format!("u{}", rng.below(3))),
+                    _ => ops.push("u-".into()),
+                }
+            }
+            // finish by removing everything that was added: the direct-address set shrinks again
+            if rng.bool() {
+                for k in present.drain(..) {
+                    ops.push(format!("-x{k}"));
+                }
+            }
+            out.push(format!("E {cfg} {}", ops.join(",")));
+        }
         // sequential sanity
         out.push("f=i pre=a0,p1ri,a1,p2r,a2 T=- S=-".into());
         out.push("f=n pre=- T=- S=0,1".into());
@@ -596,6 +889,13 @@ impl Prop for C30 {
     }
 
     fn execute(&mut self, payload: &str) -> Exec {
+        let t: Vec<&str> = payload.split_whitespace().collect();
+        if let ["E", cfg, ops] = t[..] {
+            return match (matches!(cfg, "ip" | "relay" | "dead"), parse_eops(ops)) {
+                (true, Some(ops)) => self.run_endpoint(cfg, &ops, payload),
+                _ => Exec::new("bad-payload").tag("malformed"),
+            };
+        }
         match parse_case(payload) {
             Some(c) => self.run_case(&c),
             None => Exec::new("bad-payload").tag("malformed"),
